@@ -104,6 +104,20 @@ STYLES['axes'] = (
     'keepdims <-> re-inserting the axis; np.broadcast_to / np.broadcast_shapes for explicit broadcasting; np.einsum index letters renamed / reordered consistently. Keep every '
     'normalisation, floor, copy, conjugation and guard that exists; keep dtypes and shapes of all results identical.')
 
+STYLES['blocks'] = (
+    'Apply 12 to 18 independent, realistic, BEHAVIOUR-PRESERVING edits of the kind a maintainer makes to SAVE MEMORY or to USE BLAS, spread over as many of the listed functions as '
+    'possible - always CORRECTLY. Use for example: a reduction or a contraction over a long axis (frames, bins, stacked matrices) ACCUMULATED BLOCK BY BLOCK into an own zero-initialised '
+    'buffer, with the last partial block handled correctly (range(0, n, b) with min(start + b, n) / slices that numpy clips / ceil-many blocks / np.array_split); a stack of matrices '
+    'decomposed (eigh, solve, cholesky) block by block into preallocated result arrays of the right dtype; per-frame normalisations done blockwise in place on an OWN copy; an einsum with '
+    'two or three operands rewritten as np.matmul / @ / np.tensordot / a broadcast product followed by a sum over the right axis (explicit unit axes written as x[..., :, None, :]), and '
+    'the other way round; conjugate transposes written np.conj(np.swapaxes(x, -1, -2)) / x.conj().swapaxes(-1, -2) / x.swapaxes(-1, -2).conj(); in-place arithmetic (+=, *=, /=, '
+    'np.multiply(..., out=...)) ONLY on arrays the function allocated itself (np.zeros / np.empty / np.array(..., copy=True) / the result of an arithmetic expression / np.conj(...), '
+    'never on an argument or a view of one - remember that ndarray.conj() returns the array ITSELF for real dtypes, so copy first where the input may be real); np.take / np.compress / '
+    'boolean masks / np.flatnonzero for selections ALWAYS with an explicit axis; np.broadcast_to for explicit broadcasting (read-only: never written to); running sums carried in a '
+    'variable instead of np.sum over a stacked temporary; np.add.reduce / np.sum / math.fsum equivalents; early conversion with np.asarray / np.ascontiguousarray. Keep every '
+    'normalisation, floor, copy, conjugation and guard that exists; keep dtypes and shapes of all results identical (allow rounding-level differences of blockwise sums: compare with '
+    'rtol=1e-9).')
+
 TEMPLATE = '''You are helping to evaluate a static-analysis based verification tool for the Python library fgnt/pb_bss (EM mixture models, beamformers, permutation alignment, masks, metrics). The tool must NOT raise alarms on code whose behaviour is unchanged. Your job is to act as a careful maintainer who REFACTORS code WITHOUT changing behaviour, so that we can test the tool for false alarms.
 
 Work ONLY inside your own scratch git worktree of the library: {wt} (package directory {wt}/pb_bss). Do NOT read or write anything under /verif or /repo. Do not commit. Never use `git stash` (it is shared between worktrees).
